@@ -266,13 +266,13 @@ Proof. intro e. rewrite eval_pretty_mden. apply mden_denote. Qed.
 
 Theorem parse_eval : forall e, denote e E <> Err EDivisionByZero -> eval_tokens E (pretty e) = denote e E.
 Proof.
-  intros e H. rewrite eval_pretty. destruct (denote e E) as [v|[]]; try reflexivity. congruence.
+  intros e H. rewrite eval_pretty. destruct (denote e E) as [v|[]]; try reflexivity; congruence.
 Qed.
 
 Theorem parse_eval_when_guarded : divide_guard = true -> forall e, eval_tokens E (pretty e) = denote e E.
 Proof.
-  intros G e. rewrite eval_pretty. destruct (denote e E) as [v|[]]; try reflexivity.
-  cbn [crashify]. unfold div_zero_err. rewrite G. reflexivity.
+  intros G e. rewrite eval_pretty. destruct (denote e E) as [v|[]]; try reflexivity;
+  cbn [crashify]; unfold div_zero_err; rewrite G; reflexivity.
 Qed.
 
 End Fuel.
@@ -294,17 +294,17 @@ Proof.
   exact (eval_pretty E (EBin OMinus (EBin OMinus (EDec a) (EDec b)) (EDec c))).
 Qed.
 
-(* the current tree: 1 / 0 is a Python exception, not a diagnosis *)
-Lemma div_zero_witness :
-  let e := EBin ODivide (EDec 1) (EDec 0) in
-  denote e [] = Err EDivisionByZero /\ eval_tokens [] (pretty e) = Err ECrashZeroDivision.
-Proof. split; vm_compute; reflexivity. Qed.
+(* the DIVIDE action diagnoses a zero divisor (translated flag) *)
+Lemma divide_guard_on : divide_guard = true.
+Proof. reflexivity. Qed.
 
-Lemma div_zero_refuted : exists e E, eval_tokens E (pretty e) <> denote e E.
-Proof.
-  exists (EBin ODivide (EDec 1) (EDec 0)), [].
-  destruct div_zero_witness as [-> ->]. discriminate.
-Qed.
+Theorem parse_eval_all : forall E e, eval_tokens E (pretty e) = denote e E.
+Proof. intros E e. apply parse_eval_when_guarded. exact divide_guard_on. Qed.
+
+Lemma div_zero_diagnosed :
+  let e := EBin ODivide (EDec 1) (EDec 0) in
+  denote e [] = Err EDivisionByZero /\ eval_tokens [] (pretty e) = Err EDivisionByZero.
+Proof. split; vm_compute; reflexivity. Qed.
 
 (* ------------------------------------------------------------------------------------ *)
 (* the evaluated value is the one used for array capacities and option values             *)
@@ -343,7 +343,7 @@ Lemma const_value_pretty : forall E e v, denote e E = Ok v ->
 Proof.
   intros E e v H.
   assert (G : bind (eval_tokens E (pretty e)) (fun z => Ok (VInt z)) = Ok (VInt v)).
-  { rewrite parse_eval by (rewrite H; discriminate). rewrite H. reflexivity. }
+  { rewrite parse_eval_all. rewrite H. reflexivity. }
   destruct e as [k|k|x|o l r]; try exact G.
   - cbn [pretty pp const_value]. cbn [denote] in H. unfold ref_value in H.
     destruct (lookup x E) as [[z|b|s]|]; try discriminate. injection H as ->. reflexivity.
